@@ -159,3 +159,44 @@ package lastgersync
 
 // schema clause the reorg semantics and the one-event-per-block assumption rest on (C04, C16; A5), pinned
 //@ filepin C04,C16 migrations/lastgersync0001.sql "CREATE TABLE imported_global_exit_root ( block_num INTEGER PRIMARY KEY REFERENCES block(num) ON DELETE CASCADE,"
+
+// ---- decoding the L2 GER manager's logs into the block's event (C16, C05): a log that the decoder accepts (no error)
+// leaves the block with exactly one event for it - the removal of the root the log names, or the injection of the root
+// the log names together with the L1 info tree index the L1 info syncer holds for that root. A root the L1 info syncer
+// does not know (yet) is an error - which the downloader answers by retrying the range -, never a silently skipped log:
+// the injected-GER index must not miss a root that was injected. (Assumed, A4: the generated binding decodes the event;
+// parsedInsert / parsedRemove observe its answer.)
+//@ ghost var parsedInsert *globalexitrootmanagerl2sovereignchain.Globalexitrootmanagerl2sovereignchainUpdateHashChainValue
+//@ ghost var parsedRemove *globalexitrootmanagerl2sovereignchain.Globalexitrootmanagerl2sovereignchainUpdateRemovalHashChainValue
+//@ extern (*github.com/0xPolygon/cdk-contracts-tooling/contracts/pp/l2-sovereign-chain/globalexitrootmanagerl2sovereignchain.Globalexitrootmanagerl2sovereignchainFilterer).ParseUpdateHashChainValue (f, log)
+//@   modifies parsedInsert
+//@   ensures result1 != nil ==> result0 == nil
+//@   ensures result1 == nil ==> result0 != nil && parsedInsert == result0
+//@ extern (*github.com/0xPolygon/cdk-contracts-tooling/contracts/pp/l2-sovereign-chain/globalexitrootmanagerl2sovereignchain.Globalexitrootmanagerl2sovereignchainFilterer).ParseUpdateRemovalHashChainValue (f, log)
+//@   modifies parsedRemove
+//@   ensures result1 != nil ==> result0 == nil
+//@   ensures result1 == nil ==> result0 != nil && parsedRemove == result0
+// the L1 info syncer's index of a root (rigid ghost function, A8); gerLookupsOK counts its successful answers
+//@ spec fn l1IndexOfGER(g Hash) int
+//@ ghost var gerLookupsOK int
+//@ interface github.com/agglayer/aggkit/lastgersync.L1InfoTreeQuerier.GetInfoByGlobalExitRoot (self, ger)
+//@   modifies gerLookupsOK
+//@   ensures result1 != nil ==> result0 == nil && gerLookupsOK == old(gerLookupsOK)
+//@   ensures result1 == nil ==> result0 != nil && result0.L1InfoTreeIndex == l1IndexOfGER(ger) && gerLookupsOK == old(gerLookupsOK) + 1
+
+//@ func (d *downloaderPP) buildAppender$1
+//@   props C16 C05
+//@   requires b != nil && l2GERManager != nil
+//@   modifies b.Events, parsedRemove
+//@   ensures[failed-decode-changes-nothing] result != nil ==> b.Events == old(b.Events)
+//@   ensures[one-removal-event-for-the-log] result == nil ==> len(b.Events) == 1 && typeIs(b.Events[0], *Event) && cast(b.Events[0], *Event) != nil && cast(b.Events[0], *Event).GEREvent != nil && cast(b.Events[0], *Event).GERInfo == nil
+//@   ensures[the-removal-names-the-logs-root-in-this-block] result == nil ==> cast(b.Events[0], *Event).GEREvent.IsRemove && cast(b.Events[0], *Event).GEREvent.BlockNum == b.Num && cast(b.Events[0], *Event).GEREvent.GlobalExitRoot == hashOf(parsedRemove.RemovedGlobalExitRoot)
+
+//@ func (d *downloaderPP) buildAppender$2
+//@   props C16 C05
+//@   requires b != nil && l2GERManager != nil && d != nil && d.l1InfoTreeSync != nil
+//@   modifies b.Events, parsedInsert, gerLookupsOK
+//@   ensures[failed-decode-changes-nothing] result != nil ==> b.Events == old(b.Events)
+//@   ensures[accepted-only-with-the-roots-l1-index] result == nil ==> gerLookupsOK == old(gerLookupsOK) + 1
+//@   ensures[one-injection-event-for-the-log] result == nil ==> len(b.Events) == 1 && typeIs(b.Events[0], *Event) && cast(b.Events[0], *Event) != nil && cast(b.Events[0], *Event).GEREvent != nil && cast(b.Events[0], *Event).GERInfo == nil
+//@   ensures[the-injection-names-the-logs-root-and-its-l1-index] result == nil ==> !cast(b.Events[0], *Event).GEREvent.IsRemove && cast(b.Events[0], *Event).GEREvent.BlockNum == b.Num && cast(b.Events[0], *Event).GEREvent.GlobalExitRoot == hashOf(parsedInsert.NewGlobalExitRoot) && cast(b.Events[0], *Event).GEREvent.L1InfoTreeIndex == l1IndexOfGER(hashOf(parsedInsert.NewGlobalExitRoot))
